@@ -30,8 +30,9 @@ JAVA_OPTS = ("-XX:TieredStopAtLevel=1",)     # quick tier: every TLC run is shor
 QUERIES = {"GetByAddress", "GetByKey", "GetPeersForService", "GetWalkable", "GetIntroductionsFrom", "Snapshot"}
 STRICT = ("verified", "addrOf", "services", "all", "bufs")
 LENIENT = ("byKey", "ipCache", "introCache", "svcCache")
-INVS = ["TypeOK", "LookupsAgree", "BlacklistedNeverVerified", "SnapshotRoundTrip"]
-PROPS = ["QueriesPure", "RemovedIsGone", "ReAddWorks", "ArgumentsNotRetained", "OnlyTheNamedPeer", "CallerKeepsItsCollection"]
+INVS = ["TypeOK", "LookupsAgree", "HistoryAgrees", "BlacklistedNeverVerified", "SnapshotRoundTrip"]
+PROPS = ["QueriesPure", "RemovedIsGone", "RemovedIsClean", "ReAddWorks", "ArgumentsNotRetained", "OnlyTheNamedPeer",
+         "CallerKeepsItsCollection"]
 ALL_ACTIONS = ["AddVerified", "DiscoverAddress", "DiscoverServices", "RemoveByAddress", "RemovePeer", "LoadSnapshot",
                "GetByAddressG", "GetByKey", "GetPeersForService", "GetWalkable", "GetIntroductionsFrom", "Snapshot"]
 CALLER_ACTIONS = ["DiscoverServicesBuf", "CallerMutates"]          # enabled in universes with NB > 0
@@ -215,6 +216,10 @@ class World:
         self.sid_of[None] = 0
         self.realizations = realizations(c)
         self.realization = self.realizations[0]
+        # speed of the projection only: the key OBJECTS handed out by this World -> p; immutable records shared
+        self._pid_by_obj = {id(k): p for p, k in self.pub.items()}
+        self._rec_addr, self._rec_all = {}, {}
+        self._kbins = set(self.kbin.values())
 
     def home(self, p):
         return (p - 1) % self.na + 1
@@ -233,7 +238,11 @@ class World:
         return self.Peer(self.pub[p], self.addr[a])      # a fresh object, as made for every received packet
 
     def pid(self, peer):
-        return self.pid_of[peer.public_key.key_to_bin()]
+        k = peer.public_key
+        p = self._pid_by_obj.get(id(k))
+        if p is not None and self.pub[p] is k:
+            return p
+        return self.pid_of[k.key_to_bin()]
 
     def aid(self, address):
         try:
@@ -272,9 +281,13 @@ class World:
             net.remove_by_address(self.addr[args[0]])
             return none
         if name == "RemovePeer":
-            obj = self.stored(net, args[0])
+            p, pa = args if len(args) > 1 else (args[0], 0)
+            if pa:
+                net.remove_peer(self.peer(p, pa))      # another Peer object of the key (p verified or not)
+                return none
+            obj = self.stored(net, p)
             if obj is None:
-                raise MachineryError("RemovePeer(%d) replayed although the peer is not verified" % args[0])
+                raise MachineryError("RemovePeer(%d, 0) replayed although the peer is not verified" % p)
             net.remove_peer(obj)
             return none
         if name == "LoadSnapshot":
@@ -310,7 +323,16 @@ class World:
                 v6 = self.aid(ad)
             else:
                 raise MachineryError("unexpected address class %r in Peer.addresses" % (cls,))
-        return FrozenDict({"v4": v4, "v6": v6})
+        r = self._rec_addr.get((v4, v6))
+        if r is None:
+            r = self._rec_addr[(v4, v6)] = FrozenDict({"v4": v4, "v6": v6})
+        return r
+
+    def _entry(self, known, intro, svc, ns):
+        r = self._rec_all.get((known, intro, svc, ns))
+        if r is None:
+            r = self._rec_all[(known, intro, svc, ns)] = FrozenDict({"known": known, "intro": intro, "svc": svc, "ns": ns})
+        return r
 
     def project(self, net, lenient=True):
         stored = {}
@@ -319,14 +341,14 @@ class World:
             if p in stored:
                 raise MachineryError("two objects of one key in verified_peers")
             stored[p] = x
-        none = FrozenDict({"v4": 0, "v6": 0})
+        none = self._rec_addr.get((0, 0)) or self._rec_addr.setdefault((0, 0), FrozenDict({"v4": 0, "v6": 0}))
+        spp, sid_of, kbin, empty = net.services_per_peer, self.sid_of, self.kbin, frozenset()
         st = {"verified": frozenset(stored),
-              "addrOf": tuple(self._addrs(stored[p]) if p in stored else none for p in range(1, self.np + 1)),
-              "services": tuple(frozenset(self.sid_of[s] for s in net.services_per_peer.get(self.kbin[p], ()))
-                                for p in range(1, self.np + 1))}
-        extra = set(net.services_per_peer) - set(self.kbin.values())
-        if extra:
-            st["services"] = ("unknown keys in services_per_peer", tuple(sorted(extra)))
+              "addrOf": tuple([self._addrs(stored[p]) if p in stored else none for p in range(1, self.np + 1)]),
+              "services": tuple([frozenset([sid_of[s] for s in spp[kbin[p]]]) if kbin[p] in spp else empty
+                                 for p in range(1, self.np + 1)])}
+        if not self._kbins.issuperset(spp):
+            st["services"] = ("unknown keys in services_per_peer", tuple(sorted(set(spp) - self._kbins)))
         al = []
         byaid = {self.aid(k): v for k, v in net._all_addresses.items()}
         if -1 in byaid:
@@ -335,10 +357,10 @@ class World:
             for a in range(1, self.na + 1):
                 w = byaid.get(a)
                 if w is None:
-                    al.append(FrozenDict({"known": False, "intro": 0, "svc": 0, "ns": False}))
+                    al.append(self._entry(False, 0, 0, False))
                 else:
-                    al.append(FrozenDict({"known": True, "intro": self.pid_of.get(w.introduced_by, -1),
-                                          "svc": self.sid_of.get(w.services, -1), "ns": bool(w.new_style)}))
+                    al.append(self._entry(True, self.pid_of.get(w.introduced_by, -1), self.sid_of.get(w.services, -1),
+                                          bool(w.new_style)))
         st["all"] = tuple(al)
         st["bufs"] = tuple(frozenset(self.sid_of.get(x, -1) for x in net.c12_caller.contents(b))
                            for b in range(1, self.c["NB"] + 1))
@@ -455,8 +477,16 @@ def abs_cand(st, a):
     return {p for p in st["verified"] if a in (st["addrOf"][p - 1]["v4"], st["addrOf"][p - 1]["v6"])}
 
 
+_LABELS = {}
+
+
 def label_of(name, args):
-    return "%s(%s)" % (name, ", ".join(str(sorted(x)) if isinstance(x, frozenset) else str(x) for x in args))
+    try:
+        return _LABELS[(name, args)]
+    except KeyError:
+        v = _LABELS[(name, args)] = "%s(%s)" % (name, ", ".join(str(sorted(x)) if isinstance(x, frozenset) else str(x)
+                                                                 for x in args))
+        return v
 
 
 def call_key(name, args):
@@ -474,12 +504,24 @@ class Replayer:
         self.count = {}         # signature -> number of failing histories
         self.ops = 0
         self.audits = 0
+        self.rm = {"stored_object": 0, "other_object_verified": 0, "other_object_not_verified": 0,
+                   "other_object_not_verified_advertising": 0}     # the kinds of remove_peer executed (vacuity)
 
     def step(self, net, src_state, name, args, dsts, labels):
         """dsts: candidate successor states (dicts) for this call. Returns index of the matching one, or None when the
         walk must end (violation or un-followable)."""
         ret = self.w.apply(net, name, args)
         self.ops += 1
+        if name == "RemovePeer":
+            p, pa = args
+            if not pa:
+                self.rm["stored_object"] += 1
+            elif p in src_state["verified"]:
+                self.rm["other_object_verified"] += 1
+            else:
+                self.rm["other_object_not_verified"] += 1
+                if src_state["services"][p - 1]:
+                    self.rm["other_object_not_verified_advertising"] += 1
         proj = self.w.project(net, lenient=False)
         good = []
         for i, d in enumerate(dsts):
@@ -567,6 +609,13 @@ class Replayer:
 
     def signatures(self):
         return set(self.found)
+
+    def vacuity(self):
+        """Every kind of remove_peer of the specification must have been executed on the real Network."""
+        missing = [k for k, n in self.rm.items() if not n]
+        if missing and not self.found:
+            raise MachineryError("vacuous replay %s: kinds of remove_peer never executed: %s" % (self.tag, missing))
+        return self.rm
 
     def flush(self):
         """Report the shortest failing history of every signature."""
@@ -774,6 +823,7 @@ def replay_graph(ctx, c, tag, seed, dot, max_ops=None, report=True, network_cls=
                                    "calls_executed": len(done_groups), "edges_covered": len(covered_edges),
                                    "complete_call_cover": len(done_groups) == total_groups,
                                    "stopped_on_other_allowed_answer": rp.lenient_stops,
+                                   "remove_peer_calls": rp.vacuity(),
                                    "impl_layer_drift": rp.drift})
     return rp
 
@@ -823,7 +873,7 @@ def replay_simulate(ctx, c, tag, seed, behaviours, depth):
     ctx.traces(len(behaviours))
     ctx.note("simulate_" + tag, {"behaviours": len(behaviours), "depth": depth, "real_operations": rp.ops,
                                  "realizations_of_the_callers_collections": w.realizations,
-                                 "actions_seen": sorted(seen_actions),
+                                 "actions_seen": sorted(seen_actions), "remove_peer_calls": rp.vacuity(),
                                  "stopped_on_other_allowed_answer": rp.lenient_stops, "impl_layer_drift": rp.drift})
     return rp
 
@@ -883,10 +933,13 @@ def record_trace(w, rng, length, real=None):
             call = ("RemoveByAddress", (e["a"],))
         elif x < 0.50:
             ver = sorted(w.pid(v) for v in net.verified_peers)
-            if not ver:
-                continue
-            e.update(op="RemovePeer", p=rng.choice(ver))
-            call = ("RemovePeer", (e["p"],))
+            if ver and rng.random() < 0.5:
+                e.update(op="RemovePeer", p=rng.choice(ver))             # the stored object (pa = 0)
+            else:
+                # another Peer object of some key, verified or not; often one that advertised while it was not verified
+                unv = sorted(w.pid_of[k] for k, v in net.services_per_peer.items() if v and w.pid_of[k] not in ver)
+                e.update(op="RemovePeer", p=rng.choice(unv) if unv and rng.random() < 0.5 else rp(), pa=ra())
+            call = ("RemovePeer", (e["p"], e["pa"]))
         elif x < 0.53:
             ss = sorted(rng.sample(range(1, na + 1), rng.randrange(1, 4)))
             e.update(op="LoadSnapshot", ss=ss)
@@ -944,6 +997,31 @@ def corrupt_caller_traces(traces):
     raise MachineryError("the recorded histories have no CallerMutates / DiscoverServicesBuf event to corrupt")
 
 
+def corrupt_removal_traces(traces):
+    """Two corrupted copies of recorded histories for the controls of remove_peer with another object of the key:
+    (5) a peer that advertised while it was NOT verified keeps its services across its removal, (6) a verified peer
+    removed through another object of its key stays in the membership."""
+    bad5 = bad6 = None
+    for t in traces:
+        evs = t["events"]
+        for i, e in enumerate(evs):
+            if i == 0 or e["op"] != "RemovePeer" or not e["pa"]:
+                continue
+            before = evs[i - 1]
+            if bad5 is None and e["p"] not in before["verified"] and before["services"][e["p"] - 1]:
+                bad5 = json.loads(json.dumps([{"events": evs[:i + 1]}]))
+                bad5[0]["events"][i]["services"][e["p"] - 1] = before["services"][e["p"] - 1]
+            if bad6 is None and e["p"] in before["verified"]:
+                bad6 = json.loads(json.dumps([{"events": evs[:i + 1]}]))
+                x = bad6[0]["events"][i]
+                x["verified"] = sorted(set(x["verified"]) | {e["p"]})
+                x["addr"][e["p"] - 1] = before["addr"][e["p"] - 1]
+        if bad5 and bad6:
+            return bad5, bad6
+    raise MachineryError("the recorded histories have no remove_peer (through another object of the key) of a peer that "
+                         "advertised while it was not verified / of a verified peer to corrupt")
+
+
 def job_trace(tmp, traces, name, invariants=("TraceAccepted",)):
     path = os.path.join(tmp, name + ".json")
     with open(path, "w", encoding="utf-8") as f:
@@ -959,7 +1037,10 @@ def job_trace(tmp, traces, name, invariants=("TraceAccepted",)):
 BAD_TRACES = ["trace with one walkable address dropped from an answer is rejected",
               "trace in which a removed peer stays verified is rejected",
               "trace in which a peer's services follow a later change of the caller's collection is rejected",
-              "trace in which discover_services writes into the collection it was handed is rejected"]
+              "trace in which discover_services writes into the collection it was handed is rejected",
+              "trace in which a peer that advertised while it was not verified keeps its services across remove_peer is "
+              "rejected",
+              "trace in which a verified peer removed through another Peer object of its key stays verified is rejected"]
 
 
 def bad_trace_controls(ctx, r, n):
@@ -1012,7 +1093,12 @@ SPEC_CONTROLS = [  # (pinned deviation, NS, what must be violated, invariants, p
     ("alias", 0, "OnlyTheNamedPeer", [], ["OnlyTheNamedPeer"]),
     ("alias", 0, "CallerKeepsItsCollection", [], ["CallerKeepsItsCollection"]),
     ("iteronce", 0, "PeersForAgrees", ["PeersForAgrees"], []),
-    ("iteronce", 0, "WalkableAgrees", ["WalkableAgrees"], [])]
+    ("iteronce", 0, "WalkableAgrees", ["WalkableAgrees"], []),
+    # remove_peer of a peer that is not verified (it advertised before): the history decides what is advertised
+    ("rmunver", 1, "AdvertisedSinceRemoval", ["AdvertisedSinceRemoval"], []),
+    ("rmunver", 1, "PeersForHistory", ["PeersForHistory"], []),
+    ("rmunver", 1, "WalkableHistory", ["WalkableHistory"], []),
+    ("rmunver", 1, "RemovedIsClean", [], ["RemovedIsClean"])]
 
 
 def own_consts(depth, defects=()):
@@ -1051,6 +1137,17 @@ def forgetful_network():
                 self.verified_peers.discard(peer)
                 self.services_per_peer.pop(peer.public_key.key_to_bin(), None)
     return ForgetfulNetwork
+
+
+def verified_only_network():
+    """A hand-made wrong Network whose remove_peer does nothing for a peer that is not verified (binding control)."""
+    from ipv8.peerdiscovery.network import Network
+
+    class VerifiedOnlyNetwork(Network):
+        def remove_peer(self, peer):
+            if peer in self.verified_peers:
+                super().remove_peer(peer)
+    return VerifiedOnlyNetwork
 
 
 def keeping_network():
@@ -1163,6 +1260,8 @@ def run(tier, seed, replay=None):
     # the caller's side: (3) the services of a peer follow a change the caller makes to its own collection afterwards,
     # (4) discover_services writes a service into the collection it was handed
     bad3, bad4 = corrupt_caller_traces(traces)
+    # remove_peer through another object of the key: (5) services of a not verified peer survive, (6) the peer stays
+    bad5, bad6 = corrupt_removal_traces(traces)
 
     tmp = scratch_dir("c12-")
     ex = ThreadPoolExecutor(max_workers=12)
@@ -1173,7 +1272,7 @@ def run(tier, seed, replay=None):
         f_dump = {tag: ex.submit(job_dump, tmp, c, tag) for tag, c, _cd in universes}
         f_sim = ex.submit(job_simulate, tmp, sim_c, "sim_3x3x2", seed, nsim, dsim)
         f_trace = ex.submit(job_trace, tmp, traces, "traces")
-        f_bad = ex.submit(job_trace, tmp, bad1 + bad2 + bad3 + bad4, "bad", ("TraceRejected",))
+        f_bad = ex.submit(job_trace, tmp, bad1 + bad2 + bad3 + bad4 + bad5 + bad6, "bad", ("TraceRejected",))
         f_ctl = [ex.submit(job_spec_control, tmp, i) for i in range(len(SPEC_CONTROLS))]
         f_intro = ex.submit(job_intro_note, tmp)
         f_check = {tag: ex.submit(job_check, dict(c, MaxDepth=cd), tag, tmp, max(2, ncpu // 4)) for tag, c, cd in universes}
@@ -1184,9 +1283,14 @@ def run(tier, seed, replay=None):
 
         def mark(k):
             marks[k] = round(_time.monotonic() - t0, 1)
-        rp = replay_graph(ctx, ctl_c, "control", seed, f_ctl_dump.result(), report=False, network_cls=forgetful_network())
+        ctl_dot = f_ctl_dump.result()
+        shutil.copy(ctl_dot, ctl_dot + ".2")
+        rp = replay_graph(ctx, ctl_c, "control", seed, ctl_dot, report=False, network_cls=forgetful_network())
         ctx.control("replay flags a Network whose remove_peer leaves the by-key index behind",
                     any(s.startswith(("replay:GetByKey:answer", "replay:AddVerified")) for s in rp.signatures()))
+        rp = replay_graph(ctx, ctl_c, "control", seed, ctl_dot + ".2", report=False, network_cls=verified_only_network())
+        ctx.control("replay flags a Network whose remove_peer ignores a peer that is not verified (its services stay)",
+                    any(s.startswith("replay:RemovePeer:state") for s in rp.signatures()))
         rp = replay_graph(ctx, ctl_own, "control_own", seed, f_ctl_own.result(), report=False,
                           network_cls=keeping_network(), all_depth=2)
         ctx.control("replay flags a Network that keeps the set it was handed (the caller changes it afterwards)",
@@ -1210,7 +1314,7 @@ def run(tier, seed, replay=None):
             mark("replayed_" + tag)
         trace_verdict(ctx, traces, f_trace.result(), "trace")
         ctx.sample({"part": "trace", "recorded_history_first_events": traces[0]["events"][:2]})
-        bad_trace_controls(ctx, f_bad.result(), 4)
+        bad_trace_controls(ctx, f_bad.result(), 6)
         mark("traces")
         for tag, _c, _cd in universes:
             ctx.add_tlc(tag, f_check[tag].result())
